@@ -190,6 +190,27 @@ class QubitOperator(of.QubitOperator):
         qop.terms = of_qop.terms.copy()
         return qop
 
+    def _as_own_type(self, other):
+        """A qubit operator of another flavour (openfermion's, or a plain QubitOperator for a QubitHamiltonian) is accepted
+        as an operand: the parent class only combines operands that are instances of the left operand's own class."""
+        if type(self) in (QubitOperator, QubitHamiltonian) and isinstance(other, of.QubitOperator) and not isinstance(other, type(self)):
+            own = type(self)()
+            own.terms = other.terms.copy()
+            return own
+        return other
+
+    def __iadd__(self, other):
+        return super().__iadd__(self._as_own_type(other))
+
+    def __isub__(self, other):
+        return super().__isub__(self._as_own_type(other))
+
+    def __imul__(self, other):
+        return super().__imul__(self._as_own_type(other))
+
+    def __mul__(self, other):
+        return super().__mul__(self._as_own_type(other))
+
     def frobenius_norm_compression(self, epsilon, n_qubits):
         """Reduces the number of operator terms based on its Frobenius norm
         and a user-defined threshold, epsilon. The eigenspectrum of the
@@ -301,23 +322,8 @@ class QubitHamiltonian(QubitOperator):
             elif self.up_then_down != other_hamiltonian.up_then_down:
                 raise RuntimeError("Spin ordering must be the same for all QubitHamiltonians.")
 
-        return super(QubitOperator, self).__iadd__(self._as_bare_hamiltonian(other_hamiltonian))
-
-    @staticmethod
-    def _as_bare_hamiltonian(other):
-        """A plain QubitOperator is accepted as a bare QubitHamiltonian (the parent class only combines operands of its own type)."""
-        if isinstance(other, of.QubitOperator) and not isinstance(other, QubitHamiltonian):
-            return qubitop_to_qubitham(other, None, None)
-        return other
-
-    def __isub__(self, other):
-        return super(QubitOperator, self).__isub__(self._as_bare_hamiltonian(other))
-
-    def __imul__(self, other):
-        return super(QubitOperator, self).__imul__(self._as_bare_hamiltonian(other))
-
-    def __mul__(self, other):
-        return super(QubitOperator, self).__mul__(self._as_bare_hamiltonian(other))
+        # A plain QubitOperator is accepted as a bare QubitHamiltonian (see QubitOperator._as_own_type)
+        return super().__iadd__(other_hamiltonian)
 
     def __eq__(self, other_hamiltonian):
 
